@@ -45,6 +45,9 @@ CHECKS = {
  "C08": dict(design="§3 C08", engine="XH",
              technique="solver-chosen pages (risky word-form pairs, continuation shapes, single-token edits of valid pages) compiled by the real walk_zorg_page concretely; CrossHair (z3) symbolic execution of the create/reindex refusal logic under symbolic flags",
              note="ANTLR cannot be traced: parse side concrete, arbitrary non-grammar text NOT claimed; part C stubs walk_zorg_page, repo, FS; C01/C02 run the listener under symbolic token texts"),
+ "C12": dict(design="§3 C12", engine="XH",
+             technique="skeleton + holes twice: page compiled under symbolic hole texts (CrossHair/z3), emitted text compared as a string with the canonical page's rendering, canonical page parsed concretely and compiled under the same symbolic texts; selections under 5 orderings",
+             note="as C01; pages without sections; .zoq header assembly and grouped output outside"),
 }
 NA = {
  "C13": "crash points between external effects (SQLite transactions, OS file writes) cannot be made symbolic: the effects are C-level/ORM internals; with them concrete a symbolic crash index is realised at the first effect, which is enumeration of faulted runs, a different technique (DESIGN.md §8)",
